@@ -793,6 +793,8 @@ func c09Precedence(rt *rapid.T) *c09Case {
 		// its changed lines (their pairing is the later change's own affair)
 		{"return foo(must(fail(1)), nil, 2)", "@@\n@@\n-must(fail(...))\n+panicNow()\n", "@@\n@@\n-foo(..., nil, ...)\n+bar(..., nil, ...)\n"},
 		{"return foo(1, nil, 2)", "@@\n@@\n-must(fail(...))\n+panicNow()\n", "@@\n@@\n-foo(..., nil, ...)\n+bar(..., nil, ...)\n"},
+		// a receive-only channel type as the operand of a conversion
+		{"return conv(<-chan int, fs)", "@@\nvar t, v expression\n@@\n-conv(t, v)\n+t(v)\n", "@@\nvar y expression\n@@\n-(<-chan int)(y)\n+recvOnly(y)\n"},
 		// what an elision leaves of a list of type arguments: one
 		{"return foo[int, string](1)", "@@\n@@\n-foo[int, ..., string]\n+bar[..., string]\n", "@@\n@@\n-bar[string]\n+baz\n"},
 		{"return foo[int, string, bool](1)", "@@\n@@\n-foo[int, ...]\n+bar[...]\n", "@@\n@@\n-bar[string, bool]\n+baz\n"},
